@@ -394,6 +394,8 @@ def run(ctx):
         ctx.note("universe", "depth<=3 width<=3: %d with a cap, %d kept (all with a cup, all depth<=2)"
                  % (len(uni), len(keep)))
         items += [(r, len(r[2]) <= 3) for r in keep]
+        ctx.cap_hit("universe: depth-3 diagrams without any cup are skipped (no snake can exist in them); "
+                    "depth <= 2 and every depth-3 diagram with a cup complete")
     else:
         uni = [r for r in rigid_universe(doms, depth, width, windings, require_cap=True)
                if len(r[2]) <= 3 or any(s[0] == "cup" for s, _ in r[2])]
